@@ -65,6 +65,16 @@ func c05Options(t *rapid.T, words []string) []database.SearchOptions {
 			o.UseFuzzy = false
 		}),
 		mk(func(o *database.SearchOptions) { o.ContextBoosts = map[string]float64{w(1): math.Inf(1)} }),
+		// with a non-finite boost: lists and maps whose elements differ although their joined text is the same
+		mk(func(o *database.SearchOptions) {
+			o.PipelineBoost = math.Inf(1)
+			o.Platforms = []string{"linux", "macos"}
+		}),
+		mk(func(o *database.SearchOptions) { o.PipelineBoost = math.Inf(1); o.Platforms = []string{"linux macos"} }),
+		mk(func(o *database.SearchOptions) { o.PipelineBoost = math.Inf(1); o.Platforms = []string{"windows"} }),
+		mk(func(o *database.SearchOptions) { o.ContextBoosts = map[string]float64{w(0): 3, "zz": math.Inf(1)} }),
+		mk(func(o *database.SearchOptions) { o.ContextBoosts = map[string]float64{w(0) + ":3 zz": math.Inf(1)} }),
+		mk(func(o *database.SearchOptions) { o.ContextBoosts = map[string]float64{w(0): math.NaN()} }),
 	}
 	return pool
 }
